@@ -22,6 +22,7 @@ LEVEL_TEXT += (' (E3.kind) set literals / comprehensions build only set values a
 
 LEVEL_TEXT += (' (E3.all) element loops of both interpreters reach the successful return only through the exhausted iterator (`if` excepted).')
 LEVEL_TEXT += (' The attribute loops of `attr` statements and shorthands hand every attribute to Attribute::execute / execute_lazy in both modes.')
+LEVEL_TEXT += (' (C16.L) local add/set in both interpreters is dominated by the guard rejecting names of globals.')
 def _report(rep, rule, f, feats, problems, ids):
     seen = set()
     for fid, msg in problems:
@@ -217,6 +218,9 @@ def run(prog, rep):
     nb0 = len(rep.items)
     e3_driver.run_driver(prog, Filtered(rep, lambda rule, key: "attributes through Attribute::" in key or "attributes in order" in key))
     rep.floor("C01.D", len(rep.items) - nb0, 4, "attribute loops of the attribute statements and shorthands (both modes)")
+    # the run-time guard against local names that collide with (undeclared, caller-supplied) globals is the same in both modes
+    from . import C16
+    C16.run(prog, Filtered(rep, lambda rule, key: rule == "C16.L"))
     na = e3_driver.element_loops_complete(prog, rep)
     rep.floor("E3.all", na, 16, "element loops of the interpreters")
     # panic where the other mode has an error: no undischarged panic site in the lazy interpreter
